@@ -22,7 +22,6 @@ import (
 	"context"
 	"fmt"
 	"regexp"
-	"strings"
 
 	"github.com/foxcpp/maddy/framework/config"
 	"github.com/foxcpp/maddy/framework/module"
@@ -65,12 +64,9 @@ func (r *Regexp) Init(cfg *config.Map) error {
 	}
 
 	if fullMatch {
-		if !strings.HasPrefix(regex, "^") {
-			regex = "^" + regex
-		}
-		if !strings.HasSuffix(regex, "$") {
-			regex = regex + "$"
-		}
+		// Group the expression: the anchors must apply to the whole of it,
+		// not to the first and the last alternative of "a|b" only.
+		regex = "^(?:" + regex + ")$"
 	}
 
 	if caseInsensitive {
